@@ -165,17 +165,38 @@ class NpShim:
     def exp(self, x):
         return sexp(x)
 
+    def _elementwise(self, f, *arrs):
+        a0 = self._real.asarray(arrs[0], dtype=object)
+        out = self._real.empty(a0.shape, dtype=object).view(SymArray)
+        others = [self._real.broadcast_to(self._real.asarray(a, dtype=object), a0.shape) for a in arrs[1:]]
+        for idx in self._real.ndindex(a0.shape):
+            out[idx] = f(a0[idx], *[o[idx] for o in others])
+        return out
+
     def cos(self, x):
+        if isinstance(x, self._real.ndarray) and x.dtype == object:
+            return self._elementwise(self.cos, x)
         return Expr(f"(Rcos {x.s})", lambda env, a=x: math.cos(a.v(env))) if isinstance(x, Expr) else self._real.cos(x)
 
     def sin(self, x):
+        if isinstance(x, self._real.ndarray) and x.dtype == object:
+            return self._elementwise(self.sin, x)
         return Expr(f"(Rsin {x.s})", lambda env, a=x: math.sin(a.v(env))) if isinstance(x, Expr) else self._real.sin(x)
 
+    def arccos(self, x):
+        if isinstance(x, self._real.ndarray) and x.dtype == object:
+            return self._elementwise(self.arccos, x)
+        return Expr(f"(Racos {x.s})", lambda env, a=x: math.acos(a.v(env))) if isinstance(x, Expr) else self._real.arccos(x)
+
     def arctan2(self, y, x):
+        if isinstance(y, self._real.ndarray) and y.dtype == object:
+            return self._elementwise(self.arctan2, y, x)
         y, x = Expr.of(y), Expr.of(x)
         return Expr(f"(Ratan2 {y.s} {x.s})", lambda env, a=y, b=x: math.atan2(a.v(env), b.v(env)))
 
     def sqrt(self, x):
+        if isinstance(x, self._real.ndarray) and x.dtype == object:
+            return self._elementwise(self.sqrt, x)
         if isinstance(x, Expr):
             return Expr(f"(Rsqrt {x.s})", lambda env, a=x: math.sqrt(a.v(env)))
         if isinstance(x, (int, float)) and float(x) == 2.0:
@@ -920,4 +941,49 @@ def selfcheck_quat(t, reps=10, seed=0):
         env = {"p": rng.normal(size=4), "q": rng.normal(size=4)}
         if not np.allclose([e.v(env) for e in t], np.asarray(U.quat_product(env["p"], env["q"]), float), rtol=1e-13, atol=1e-300):
             return ["quat_product"]
+    return []
+
+
+# ------------------------------------------------------------------ geometry.to_cartesian / to_spherical (C20)
+def trace_geom():
+    from pydrex import geometry as G
+
+    real_np = G.np
+    G.np = NpShim(real_np)
+
+    def one(name):
+        a = np.empty(1, dtype=object).view(SymArray)
+        a[0] = sym_scalar(name)
+        return a
+
+    try:
+        cart = G.to_cartesian(one("φ"), one("θ"), one("r"))
+        sph = G.to_spherical(one("x"), one("y"), one("z"))
+    finally:
+        G.np = real_np
+    return {"cart": [Expr.of(c[0]) for c in cart], "sph": [Expr.of(c[0]) for c in sph]}
+
+
+def emit_geom(t, path=None):
+    lines = ["-- GENERATED on every run by harness/trace/tracer.py from /repo/src/pydrex/geometry.py -- do not edit",
+             "import ModelR.Geom", "noncomputable section", "namespace ModelR.Geom", "",
+             "def traced_toCartesian (φ θ r : ℝ) : ℝ × ℝ × ℝ :=", "  (" + ", ".join(e.s for e in t["cart"]) + ")", "",
+             "def traced_toSpherical (x y z : ℝ) : ℝ × ℝ × ℝ :=", "  (" + ", ".join(e.s for e in t["sph"]) + ")", "", "end ModelR.Geom", ""]
+    text = "\n".join(lines)
+    path = path or (GEN / "TracedGeom.lean")
+    if not path.exists() or path.read_text() != text:
+        path.write_text(text)
+    return text
+
+
+def selfcheck_geom(t, reps=10, seed=0):
+    from pydrex import geometry as G
+
+    rng = np.random.default_rng(seed)
+    for _ in range(reps):
+        env = {"φ": float(rng.uniform(0, 6)), "θ": float(rng.uniform(0, 3)), "r": float(rng.uniform(0.1, 3)), **dict(zip("xyz", map(float, rng.normal(size=3))))}
+        if not np.allclose([e.v(env) for e in t["cart"]], np.ravel(G.to_cartesian(env["φ"], env["θ"], env["r"])), rtol=1e-13):
+            return ["to_cartesian"]
+        if not np.allclose([e.v(env) for e in t["sph"]], np.ravel(G.to_spherical(env["x"], env["y"], env["z"])), rtol=1e-13):
+            return ["to_spherical"]
     return []
